@@ -1461,7 +1461,8 @@ class PyExec:
         if isinstance(f, Closure):
             key = (f.cls + "." if f.cls else "") + f.node.name
             if key in self.hooks:
-                return self.hooks[key](self, st, ([f.self_ref] if f.self_ref is not None else []) + args, kwargs)
+                self.hook_self = f.self_ref      # receiver of a hooked method (hooks take the explicit arguments only)
+                return self.hooks[key](self, st, args, kwargs)
             if key in self.abstract:
                 self.abstracted.append("%s line %s: call to %s abstracted" % (self.mod.relpath, n.lineno, key))
                 return z3.Real("abs!%s!%d" % (key, next(Ref._ids)))
